@@ -510,7 +510,7 @@ func scenarios(tier string) []Scenario {
 					if tier != "thorough" {
 						continue
 					}
-					for k := j; k < len(ps); k++ {
+					for k := j; k < len(ps) && k < 10 && j < 10; k++ { // triples over the ten single-directory programs
 						ths3 := []Prog{ps[i], ps[j], ps[k]}
 						if valid(ths3) && interesting(ths3) && !pg {
 							out = append(out, Scenario{impl, pg, ths3})
@@ -589,7 +589,11 @@ func main() {
 		acc := ev.NewAcc()
 		for k, sc := range scs {
 			if k%n == i {
-				mcx.Explore(mkCase(sc, bound, start.Add(25*time.Minute)), acc)
+				b := bound
+				if len(sc.Threads) >= 3 {
+					b = 2 // three client programs: one preemption less than the pairs
+				}
+				mcx.Explore(mkCase(sc, b, start.Add(25*time.Minute)), acc)
 			}
 		}
 		acc.EmitChild()
